@@ -364,6 +364,13 @@ func NewFSNFromDag(nd *dag.ProtoNode) (*FSNodeOverDag, error) {
 // node but the size of the file data that it is storing at the
 // UnixFS layer). The child is also stored in the `DAGService`.
 func (n *FSNodeOverDag) AddChild(child ipld.Node, fileSize uint64, db *DagBuilderHelper) error {
+	// Store the child first: a DAGService may still change the child's CID
+	// builder while adding it (the DagModifier switches oversized identity
+	// CIDs to a real hash), and the link must carry the CID it is stored under.
+	if err := db.Add(child); err != nil {
+		return err
+	}
+
 	err := n.dag.AddNodeLink("", child)
 	if err != nil {
 		return err
@@ -371,7 +378,7 @@ func (n *FSNodeOverDag) AddChild(child ipld.Node, fileSize uint64, db *DagBuilde
 
 	n.file.AddBlockSize(fileSize)
 
-	return db.Add(child)
+	return nil
 }
 
 // RemoveChild deletes the child node at the given index.
